@@ -1441,6 +1441,7 @@ static int64_t dump_thread(int *nbth)
             ks = strlen(i->key);
             vs = strlen(i->value);
             if( pos + ks + vs + sizeof(parsec_profiling_info_buffer_t) - 1 >= event_avail_space ) {
+                i = i->next;  /* this info is ignored (see thread_size) */
                 continue;
             }
             ib = (parsec_profiling_info_buffer_t*)&(b->buffer[pos]);
